@@ -34,6 +34,12 @@ func symbolNeedsQuoting(sym string) bool {
 		return true
 	}
 
+	// A bare $ion_1_0 at the top level of a text stream is a version marker, not
+	// a symbol value: text of that shape is only a symbol when it is quoted.
+	if looksLikeVersionMarker(sym) {
+		return true
+	}
+
 	allDigits := len(sym) > 1 && sym[0] == '$'
 	for i := 1; i < len(sym); i++ {
 		if !isIdentifierPart(int(sym[i])) {
@@ -54,6 +60,27 @@ func symbolNeedsQuoting(sym string) bool {
 	}
 
 	return false
+}
+
+// Does this text have the shape of an Ion version marker, $ion_<digits>_<digits>?
+func looksLikeVersionMarker(sym string) bool {
+	const prefix = "$ion_"
+	if !strings.HasPrefix(sym, prefix) {
+		return false
+	}
+	rest := sym[len(prefix):]
+	i := 0
+	for i < len(rest) && isDigit(int(rest[i])) {
+		i++
+	}
+	if i == 0 || i >= len(rest) || rest[i] != '_' {
+		return false
+	}
+	j := i + 1
+	for j < len(rest) && isDigit(int(rest[j])) {
+		j++
+	}
+	return j > i+1 && j == len(rest)
 }
 
 // Is this a valid first character for an identifier?
